@@ -5,6 +5,7 @@ import collections
 
 import common as C
 import re_probes as RP
+import fault_probes as FP
 import engine_common as E
 import engine_extract
 import replay_common as R
@@ -187,6 +188,7 @@ def run(ctx, model=True):
     for k, v in STATS.items():
         res.count(k, v)
     RP.add_to(res, ["stale-deferred-pause"])
+    FP.run_probes(ctx, res, [FP.resume_replays_nothing], ["grace-sleep-pause"], 6, 60)
     res.rule += " | C09: checkpoints at varying spacing (some plans almost without), deferred pause requested at EVERY arrival index (sweeps) or by a pause(defer=True) message, mixed with immediate pauses / suspensions / aborts; judged = the request met a checkpoint (paused there, nothing executed in between, resume replays nothing) or met none (flag stays set, call not interrupted)"
     return res
 
@@ -199,4 +201,6 @@ def replay(ctx, data):
     r = RP.replay(data)
     if r is not None:
         return r
+    if FP.is_probe(data):
+        return FP.replay_probe(ctx, data, [FP.resume_replays_nothing])
     return E.replay_property(ctx, data, oracle)
